@@ -71,6 +71,15 @@ def proposeByModel (cands : List Pos) : Tape → Except Err (Pos × Tape)
   | [] => .error .needMore
   | _ => .error (protocol "_sampling")
 
+/-- what `_training()` itself draws: ForestOptimizer's `if len(Y_sample) == 0: return self.move_random()` makes the draws of a
+    `move_random` (generator and constraint) and drops the position -/
+def trainTape (cfg : SmboCfg) (s : SmboSt) : Except Err Tape :=
+  if cfg.trainsOnEmpty ∧ s.sm.Y = [] then
+    match moveRandomLoop s.tape with
+    | .error e => .error e
+    | .ok a => .ok a.2
+  else .ok s.tape
+
 /-- `_propose_location()` -/
 def smboPropose (cfg : SmboCfg) (s : SmboSt) : Except Err (Pos × Tape) :=
   if cfg.lipschitz then
@@ -85,13 +94,16 @@ def smboPropose (cfg : SmboCfg) (s : SmboSt) : Except Err (Pos × Tape) :=
     | [] => .error .needMore
     | _ => .error (protocol "_sampling")
   else
-  match s.tape with
-  | .int trained :: rest =>
-    if trained = 0 then moveRandomLoop rest          -- `except ValueError: return self.move_random()`
-    else if cfg.trainsOnEmpty ∧ s.sm.Y = [] then .error (.other "NotFittedError")   -- known finding: predict before any fit
-    else proposeByModel s.sm.cands rest
-  | [] => .error .needMore
-  | _ => .error (protocol "_training")
+  match trainTape cfg s with
+  | .error e => .error e
+  | .ok tape1 =>
+    match tape1 with
+    | .int trained :: rest =>
+      if trained = 0 then moveRandomLoop rest          -- `except ValueError: return self.move_random()`
+      else if cfg.trainsOnEmpty ∧ s.sm.Y = [] then .error (.other "NotFittedError")   -- known finding: predict before any fit
+      else proposeByModel s.sm.cands rest
+    | [] => .error .needMore
+    | _ => .error (protocol "_training")
 
 /-- `iterate` under `track_new_pos` and `track_X_sample` -/
 def smboIterate (cfg : SmboCfg) (s : SmboSt) : Except Err (Pos × SmboSt) :=
